@@ -19,7 +19,7 @@ use std::panic::{catch_unwind, AssertUnwindSafe};
 
 use serde_json::{json, Value};
 
-use packing::traits::{Intersect, Potential, Shape, State};
+use packing::traits::{Basis, Intersect, Potential, Shape, State};
 use packing::{LJShape2, LineShape, MolecularShape2, PackedState, PotentialState, Transform2};
 
 use crate::common::*;
@@ -137,6 +137,38 @@ impl St {
                 let fresh: PotentialState<LJShape2> = serde_json::from_value(serde_json::to_value(&c).ok()?).ok()?;
                 Some((a, std::thread::spawn(move || fresh.score()).join().ok()?))
             }
+        }
+    }
+    /// C01 / C02 / C09: a state that was scored where it was built and then MOVED through its own handles (as the
+    /// optimiser moves it) to the parameters of `self` scores as `self` read from its own JSON does: what a state remembers
+    /// from an earlier score may not outlive a move.  None when the move cannot reach `self` exactly (a clamp intervened).
+    pub fn moved_then_score(&self, start: &St) -> Option<(Option<f64>, Option<f64>)> {
+        fn go<S: State + serde::Serialize + serde::de::DeserializeOwned + Send + 'static>(target: &S, start: &S) -> Option<(Option<f64>, Option<f64>)> {
+            let st = start.clone();
+            let _ = st.score();
+            {
+                let want: Vec<f64> = target.generate_basis().iter().map(|h| h.get_value()).collect();
+                let mut basis = st.generate_basis();
+                if basis.len() != want.len() {
+                    return None;
+                }
+                for (h, v) in basis.iter_mut().zip(want.iter()) {
+                    h.set_value(*v);
+                }
+            }
+            let (a, b) = (serde_json::to_value(&st).ok()?, serde_json::to_value(target).ok()?);
+            if a != b {
+                return None;
+            }
+            let moved = st.score();
+            let fresh: S = serde_json::from_value(b).ok()?;
+            Some((moved, std::thread::spawn(move || fresh.score()).join().ok()?))
+        }
+        match (self, start) {
+            (St::Poly(t), St::Poly(s)) => go(t, s),
+            (St::Mol(t), St::Mol(s)) => go(t, s),
+            (St::Lj(t), St::Lj(s)) => go(t, s),
+            _ => None,
         }
     }
     pub fn svg(&self) -> String {
@@ -1060,6 +1092,26 @@ pub fn run_state_case(spec: &Spec, out: &mut dyn Write) -> GeomOut {
         if !same {
             add(&mut f, "C02,C03,C11", format!(
                 "a state that was scored, then given another shape, scores {:?}; the state rebuilt from its own JSON scores {:?}", a, b));
+        }
+    }
+    // ---------------- C01 / C02 / C09: the score after a move equals the score of the state as it now is
+    if spec.kv.contains_key("len") && !spec.kv.contains_key("x2") && !spec.kv.contains_key("opt") && !spec.kv.contains_key("family") {
+        let mut s0 = spec.clone();
+        for k in ["len", "ratio", "angle", "x", "y", "phi", "rots", "prev", "k", "zero", "idx"].iter() {
+            s0.kv.remove(*k);
+        }
+        if let Ok(start) = catch_unwind(AssertUnwindSafe(|| build(&s0))) {
+            if let Some((moved, fresh)) = st.moved_then_score(&start) {
+                let same = match (moved, fresh) {
+                    (Some(x), Some(y)) => x.to_bits() == y.to_bits() || (x.is_nan() && y.is_nan()),
+                    (None, None) => true,
+                    _ => false,
+                };
+                if !same {
+                    add(&mut f, "C01,C02,C03,C09", format!(
+                        "a state scored where it was built and then moved through its handles to these parameters scores {:?}; the same state read from its JSON scores {:?}", moved, fresh));
+                }
+            }
         }
     }
     // ---------------- C11: JSON round trip and SVG
